@@ -24,6 +24,7 @@ type PropConfig struct {
 	Exclude   []string `json:"exclude"`   // optional regexps: obligations whose name matches belong to another property's contract on a shared function
 	Labels    []string `json:"labels"`    // optional regexps: only obligations whose name matches one of them count
 	Det       []string `json:"det"`       // functions subject to the determinism typestate analysis
+	Unstable  []string `json:"unstable"`  // obligations whose proof takes close to the timeout: never claimed (kept undecided), so that load cannot turn them into alarms
 	Undecided []string `json:"undecided"` // parts of the property not decided (free text, copied to evidence)
 	Trusted   []string `json:"trusted"`
 	Bounded   []string `json:"bounded"`
@@ -143,6 +144,14 @@ func cmdCheck(args []string) {
 				baseline[e.Name] = e
 				baselineOrder = append(baselineOrder, e.Name)
 			}
+		}
+	}
+	unstable := map[string]bool{}
+	for _, u := range cfg.Unstable {
+		unstable[u] = true
+		if e, ok := baseline[u]; ok && e.Status == "proved" {
+			e.Status, e.Why = "undecided", "slow proof (listed as unstable)"
+			baseline[u] = e
 		}
 	}
 	// functions
@@ -307,7 +316,9 @@ func cmdCheck(args []string) {
 				continue
 			}
 			e := BaselineEntry{Name: n, Status: "proved"}
-			if g.Status != "proved" {
+			if unstable[n] {
+				e.Status, e.Why = "undecided", "slow proof (listed as unstable)"
+			} else if g.Status != "proved" {
 				e.Status = "undecided"
 				e.Why = g.Status
 				if old, ok := baseline[n]; ok && old.Why != "" && old.Status == "undecided" {
